@@ -15,6 +15,7 @@ with a result no larger than the size bound; afterwards the sentinel battery
 """
 
 import itertools
+import time
 import resource
 
 from .. import impl, space, budget
@@ -36,6 +37,7 @@ C0 = 30000
 C1 = 2500
 C1_ZERO_WIDTH = 1500000      # types holding a list of zero-width elements (PER: up to 64K elements per length octet)
 SIZE_C0, SIZE_C1 = 256, 64   # result nodes <= SIZE_C0 + SIZE_C1 * len(input)   (zero-width lists: 70000 per byte)
+CPU_CAP = 5.0                # seconds of process CPU time for ONE decode (typical: 20-200 microseconds)
 AS_CAP = 1024 ** 3          # 1 GiB: far above anything a decode of <= 4 KiB legitimately needs
 
 ASSUMPTIONS = [
@@ -46,6 +48,10 @@ ASSUMPTIONS = [
     '"Any byte string whatsoever" is explored as: all strings of length <= 2 (thorough: <= 4 over a 12-byte '
     'alphabet) and all <= E-edit variants of valid encodings (quick E=1, thorough E=2 on encodings <= 24 bytes).',
     'The statelessness part is checked by a sentinel battery at the end of every work unit, not after every input.',
+    'Besides the deterministic step budget there is one CPU-time backstop: a single decode that uses more than 5 s of '
+    'process CPU time (10^4 times the typical cost) is reported as budget-cpu - this catches work the step counter '
+    'cannot see (a C-level allocation sized by a length field); after eight memory / CPU failures in one work unit the '
+    'remaining inputs of that unit are skipped (counted), the verdict being decided.',
     'BER: the base encodings of the edit stage also include valid re-serialisations of the encoder output (indefinite '
     'length, constructed string forms, padded length; one rewrite each, from mc/tlv4.py), because the encoder never '
     'emits those forms and the decoder loops that handle them are otherwise more than one edit away.',
@@ -305,6 +311,7 @@ def limits(zw, nest, n):
 def probe(ct, data, zw, nest):
     """Decode one input. Returns None when within budget, else (kind, detail)."""
     steps, size = limits(zw, nest, len(data))
+    t0 = time.process_time()
     try:
         dec, used = budget.run(steps, ct.decode, data)
     except budget.BudgetExceeded:
@@ -312,9 +319,14 @@ def probe(ct, data, zw, nest):
     except MemoryError:
         return ('budget-memory', 'MemoryError under %d byte address space' % AS_CAP)
     except RecursionError:
-        return None          # an exception is an acceptable outcome
+        dec = None           # an exception is an acceptable outcome
     except Exception:
-        return None
+        dec = None
+    cpu = time.process_time() - t0
+    if cpu > CPU_CAP:
+        # work the step counter cannot see (one C-level operation sized by the input's announcement, e.g. a list
+        # pre-allocated from a quantity field): CPU seconds of THIS process for one input of a few bytes
+        return ('budget-cpu', 'one decode of %d bytes used more than %g s of CPU time' % (len(data), CPU_CAP))
     n = result_nodes(dec)
     if n > size:
         return ('budget-size', 'result of %d nodes from %d bytes' % (n, len(data)))
@@ -358,8 +370,15 @@ def work(unit):
         seen.add(data)
         if zw and len(data) > 8:
             return
+        if res.stats.get('resource_failures_in_unit', 0) >= 8:
+            # this type's decoder has already been shown to blow the memory / CPU budget eight times: the verdict for
+            # the unit is decided, the remaining inputs (each of which may cost seconds) are skipped and counted
+            res.count('inputs_skipped_after_repeated_resource_failures')
+            return
         res.count('evaluations')
         r = probe(ct, data, zw, nest)
+        if r is not None and r[0] in ('budget-memory', 'budget-cpu'):
+            res.count('resource_failures_in_unit')
         if r is None:
             res.outcome('within-budget')
             return
